@@ -405,12 +405,12 @@ pub fn type_check_rec<'a>(
                                             *variable,
                                             Rc::new(unsigned_shift(
                                                 annotation,
-                                                0,
+                                                definitions.len(),
                                                 definitions_len_minus_one_minus_i,
                                             )),
                                             Rc::new(unsigned_shift(
                                                 definition,
-                                                0,
+                                                definitions.len(),
                                                 definitions_len_minus_one_minus_i,
                                             )),
                                         )
